@@ -57,7 +57,25 @@ ATTRS = ["epoch", "upstream_version", "debian_revision", "debian_version", "full
 
 
 def observe(v):
-    return (str(v), v.full_version, v.epoch, v.upstream_version, v.debian_revision, v.debian_version)
+    # hash() is part of the observable state: an object changed by assignment must be
+    # indistinguishable from a fresh object built from its string (checked in same_as_fresh)
+    return (str(v), v.full_version, v.epoch, v.upstream_version, v.debian_revision, v.debian_version, hash(v))
+
+
+def same_as_fresh(v, what):
+    s = str(v)
+    try:
+        fresh = Version(s)
+    except ValueError:
+        return            # reported elsewhere (the string is judged by the recogniser)
+    if not (v == fresh) or (v != fresh) or v < fresh or v > fresh:
+        raise Violation("object-differs-from-fresh:compare", "%s: the object compares unequal to "
+                        "Version(%r) built from its own string" % (what, s))
+    if hash(v) != hash(fresh):
+        raise Violation("object-differs-from-fresh:hash", "%s: hash of the object differs from the hash "
+                        "of Version(%r) built from its own string" % (what, s))
+    if len({v, fresh}) != 1:
+        raise Violation("object-differs-from-fresh:hash", "%s: {v, Version(%r)} has two elements" % (what, s))
 
 
 def components(v):
@@ -209,6 +227,7 @@ def check_history(start, ops):
                                 % (what, e, str(v), components(v)))
             raise
         post = observe(v)
+        same_as_fresh(v, what)
         if not ok:
             rejected += 1
             labels.add("rejected-assignment")
